@@ -32,14 +32,15 @@
 //   - that null/undefined members are preserved, or that object / ECMA array /
 //     strict array can be told apart after reading;
 //   - ECMA arrays whose count field disagrees with the number of members, keys
-//     longer than 65535 bytes (not representable), nesting deeper than 6 (only
-//     "value or error" is required there, see totality / nesting-bomb);
+//     longer than 65535 bytes (not representable), nesting deeper than lal's limit of 64 (there an
+//     error is accepted; a value, if returned, must still be exact);
 //   - writing through rtmp.Buffer (message_packer.go) — its growth defect
 //     belongs to C17; encoders here write into a bytes.Buffer like BuildMetadata;
 //   - the exact encoding of the prefix MetadataEnsureWithSdf adds (only that it
 //     is one AMF0 string "@setDataFrame");
-//   - that BuildMetadata omits the fields given as -1 (documented on the
-//     function, not in the property).
+//   - whether the sdf helpers report an error on input that does not start with
+//     a string (only the bytes they return, which lal's callers use);
+//   - BuildMetadata's undocumented extra field "lal".
 package c18
 
 import (
@@ -49,6 +50,7 @@ import (
 	"strings"
 	"testing"
 
+	"github.com/q191201771/lal/pkg/base"
 	"github.com/q191201771/lal/pkg/rtmp"
 	"github.com/q191201771/naza/pkg/nazalog"
 	"pgregory.net/rapid"
@@ -437,9 +439,54 @@ func genTree(t *rapid.T) Node {
 		return genRootScalar(t, st)
 	case c <= 10:
 		return genContainer(t, st, 1)
-	default:
+	case c <= 16:
 		return genContainer(t, st, rapid.IntRange(2, 6).Draw(t, "depth"))
+	default:
+		// deep and narrow: up to lal's nesting limit and just beyond it
+		st.bigLeft = 0
+		d := rapid.OneOf(
+			rapid.SampledFrom([]int{lalMaxDepth - 1, lalMaxDepth, lalMaxDepth, lalMaxDepth + 1, lalMaxDepth + 2}),
+			rapid.IntRange(7, lalMaxDepth),
+		).Draw(t, "deepDepth")
+		return genSpine(t, st, d)
 	}
+}
+
+// lalMaxDepth is the container nesting lal's readers accept: amf0MaxNestingDepth
+// = 64 in pkg/rtmp/amf0.go (a flat object has depth 1).  Deeper values may be
+// refused with an error; up to it the round trip must be exact.
+const lalMaxDepth = 64
+
+// genSpine builds a narrow container of exactly depth want: one nested
+// container per level plus 0..2 small scalar members.
+func genSpine(t *rapid.T, st *genState, want int) Node {
+	st.nodes++
+	kind := rapid.SampledFrom([]string{"obj", "obj", "ecma", "strict"}).Draw(t, "skind")
+	n := 1
+	if want <= 1 {
+		n = 0
+	}
+	sib := rapid.SampledFrom([]int{0, 0, 0, 1, 1, 2}).Draw(t, "nsib")
+	pos := rapid.IntRange(0, sib).Draw(t, "spinePos")
+	node := Node{K: kind}
+	add := func(child Node) {
+		if kind == "strict" {
+			node.E = append(node.E, child)
+		} else {
+			node.M = append(node.M, Mem{Key: genKey(t, st), V: child})
+		}
+	}
+	for i := 0; i <= sib; i++ {
+		if i == pos && n == 1 {
+			add(genSpine(t, st, want-1))
+			continue
+		}
+		if i == pos {
+			continue
+		}
+		add(genScalar(t, st, false))
+	}
+	return node
 }
 
 // ---------------------------------------------------------------------------
@@ -723,8 +770,21 @@ func lalReadsValue(v rtmpref.Value, enc, buf []byte, encoder string) *pbt.Violat
 		readers = []rd{{"ReadStrictArray", rtmp.Amf0.ReadStrictArray}}
 	}
 	want := modelMembers(v)
+	tooDeep := v.Depth() > lalMaxDepth
 	for _, r := range readers {
 		g, n, err := r.f(buf)
+		if tooDeep {
+			if err != nil {
+				pbt.Count("roundtrip-beyond-limit-refused", 1)
+			} else {
+				pbt.Count("roundtrip-beyond-limit-read", 1)
+			}
+		}
+		if err != nil && tooDeep {
+			// nested deeper than lal's documented limit: a clean refusal is fine;
+			// a value, if one is returned, must still be the right one (below)
+			continue
+		}
 		if err != nil {
 			return fail(r.name, "error", "%v", err)
 		}
@@ -742,7 +802,17 @@ func classifyRT(c RTCase) (bool, []string) {
 	var labels []string
 	d := c.Root.depth()
 	nt := d >= 2
-	labels = append(labels, "root="+c.Root.K, fmt.Sprintf("depth=%d", d))
+	switch {
+	case d <= 6:
+		labels = append(labels, fmt.Sprintf("depth=%d", d))
+	case d < lalMaxDepth-1:
+		labels = append(labels, "depth=7..62")
+	case d <= lalMaxDepth:
+		labels = append(labels, fmt.Sprintf("depth=%d", d))
+	default:
+		labels = append(labels, fmt.Sprintf("depth=%d(beyond-limit)", d))
+	}
+	labels = append(labels, "root="+c.Root.K)
 	if lalCanEncode(c.Root) && !c.UseRef {
 		labels = append(labels, "encoder=lal")
 	} else {
@@ -838,6 +908,13 @@ type SdfCase struct {
 	// Rest: what follows the name: a valid container (Tree) or arbitrary bytes
 	Tree *Node   `json:"tree,omitempty"`
 	Rest StrSpec `json:"rest"`
+	// Mal: "" (well-formed) or the way the input does NOT start with a complete AMF0 string:
+	//   "non-string": the encoding of First (a non-string value), or the single byte Marker when First is nil, is put in front;
+	//   "truncated":  only the first Keep bytes of the input are kept, Keep < the length of its first string's encoding.
+	Mal    string `json:"mal,omitempty"`
+	First  *Node  `json:"first,omitempty"`
+	Marker uint8  `json:"marker,omitempty"`
+	Keep   int    `json:"keep,omitempty"`
 }
 
 var nameLits = []string{"onMetaData", "onMetaData", "onMetaData", "onTextData", "@setDataFram", "@setDataFrame ", "@SetDataFrame",
@@ -866,6 +943,32 @@ func genSdf(t *rapid.T) SdfCase {
 		n := genContainer(t, st, rapid.IntRange(1, 2).Draw(t, "treeDepth"))
 		c.Tree = &n
 	}
+	switch rapid.IntRange(0, 9).Draw(t, "mal") {
+	case 0:
+		c.Mal = "non-string"
+		if rapid.IntRange(0, 3).Draw(t, "rawMarker") == 0 {
+			// no string marker: 0x02 and 0x0c excluded
+			c.Marker = rapid.SampledFrom([]uint8{0x00, 0x01, 0x03, 0x04, 0x05, 0x06, 0x07, 0x08, 0x09, 0x0a, 0x0b, 0x0d, 0x10, 0x11, 0x20, 0xff}).Draw(t, "marker")
+		} else {
+			var f Node
+			switch rapid.IntRange(0, 5).Draw(t, "firstKind") {
+			case 0:
+				f = Node{K: "num", Bits: genBits(t)}
+			case 1:
+				f = Node{K: "bool", B: rapid.Bool().Draw(t, "b")}
+			case 2:
+				f = Node{K: "null"}
+			case 3:
+				f = Node{K: "undef"}
+			default:
+				f = genContainer(t, st, 1)
+			}
+			c.First = &f
+		}
+	case 1, 2:
+		c.Mal = "truncated"
+		c.Keep = rapid.OneOf(rapid.IntRange(0, 5), rapid.IntRange(0, 1<<20)).Draw(t, "keep") // reduced modulo the first string's length in build()
+	}
 	return c
 }
 
@@ -892,6 +995,28 @@ func (c SdfCase) build() (in, body []byte) {
 	default:
 		in = append([]byte{}, body...)
 	}
+	switch c.Mal {
+	case "non-string":
+		front := []byte{c.Marker}
+		if c.First != nil {
+			if c.First.K == "str" {
+				panic(pbt.HarnessError{Msg: "sdf generator: First must not be a string"})
+			}
+			front = rtmpref.EncodeAmf0(c.First.value())
+		} else if c.Marker == 0x02 || c.Marker == 0x0c {
+			panic(pbt.HarnessError{Msg: "sdf generator: Marker must not be a string marker"})
+		}
+		in = append(front, in...)
+	case "truncated":
+		_, n, err := rtmpref.DecodeAmf0(in)
+		if err != nil || n <= 0 || c.Keep < 0 {
+			panic(pbt.HarnessError{Msg: fmt.Sprintf("sdf generator: first string of the input does not decode: %v", err)})
+		}
+		in = in[:c.Keep%n] // 0 .. n-1 bytes: the first string is incomplete
+	case "":
+	default:
+		panic(pbt.HarnessError{Msg: "sdf generator: unknown Mal " + c.Mal})
+	}
 	return in, body
 }
 
@@ -904,8 +1029,51 @@ func splitSdf(out []byte) ([]byte, bool) {
 	return out[n:], true
 }
 
+// runSdfMalformed: the input does not start with a complete AMF0 string, so
+// there is no prefix to recognise.  lal's callers ignore the error and use the
+// returned bytes as the message payload (remux/rtmp.go, rtmp2flv.go,
+// gop_cache.go), so "preserves the remaining metadata bytes exactly" is judged
+// on them: stripping must return the input unchanged; adding may return the
+// input unchanged or the input behind one "@setDataFrame" string.
+// NOT asserted: whether an error is reported.
+func runSdfMalformed(c SdfCase, in []byte) *pbt.Violation {
+	desc := fmt.Sprintf("%s input (%d bytes, % x...)", c.Mal, len(in), head(in, 24))
+	wo, _ := rtmp.MetadataEnsureWithoutSdf(append([]byte{}, in...))
+	if !bytes.Equal(wo, in) {
+		return pbt.V("sdf/without/unparsable-bytes-changed", "%s: WithoutSdf returned %d bytes (% x...), want the input unchanged (first difference at %d)", desc, len(wo), head(wo, 24), firstDiff(wo, in))
+	}
+	w, _ := rtmp.MetadataEnsureWithSdf(append([]byte{}, in...))
+	if !bytes.Equal(w, in) {
+		rest, ok := splitSdf(w)
+		if !ok || !bytes.Equal(rest, in) {
+			return pbt.V("sdf/with/unparsable-bytes-changed", "%s: WithSdf returned %d bytes (% x...), want the input unchanged (or behind the prefix)", desc, len(w), head(w, 24))
+		}
+	}
+	return nil
+}
+
+// parsesTree: ParseMetadata on `payload` (name + the container c.Tree, with or
+// without prefix) must return the container in lal's model.
+func (c SdfCase) parsesTree(what string, payload []byte) *pbt.Violation {
+	if c.Tree == nil || (c.Tree.K != "obj" && c.Tree.K != "ecma") || c.Rest.size() != 0 {
+		return nil
+	}
+	tv := c.Tree.value()
+	opa, err := rtmp.ParseMetadata(payload)
+	if err != nil {
+		return pbt.V("metadata/parse-tree/error", "ParseMetadata(%s: name %s + %s): %v", what, short(c.Name.str()), tv, err)
+	}
+	if d := diffOPA("$", opa, modelMembers(tv)); d != "" {
+		return pbt.V("metadata/parse-tree/value", "ParseMetadata(%s: name %s + %s): %s", what, short(c.Name.str()), tv, d)
+	}
+	return nil
+}
+
 func runSdf(c SdfCase) *pbt.Violation {
 	in, body := c.build()
+	if c.Mal != "" {
+		return runSdfMalformed(c, in)
+	}
 	// every call gets its own copy: the comparisons below are against bytes lal never saw
 	with := func(b []byte, what string) ([]byte, *pbt.Violation) {
 		out, err := rtmp.MetadataEnsureWithSdf(append([]byte{}, b...))
@@ -956,6 +1124,17 @@ func runSdf(c SdfCase) *pbt.Violation {
 		}
 		if !bytes.Equal(wo, wantWo) {
 			return pbt.V("sdf/without/remaining-bytes-changed", "%s: WithoutSdf returned %d bytes, want the %d bytes after the prefix unchanged (first difference at %d)", desc, len(wo), len(wantWo), firstDiff(wo, wantWo))
+		}
+	}
+	if c.Prefix != 3 {
+		// what the relay forwards in either form is still the publisher's metadata
+		for _, p := range []struct {
+			what string
+			b    []byte
+		}{{"input", in}, {"WithSdf(input)", w}, {"WithoutSdf(input)", wo}} {
+			if v := c.parsesTree(p.what, p.b); v != nil {
+				return v
+			}
 		}
 	}
 	// idempotence and inverse
@@ -1016,6 +1195,20 @@ func firstDiff(a, b []byte) int {
 
 func classifySdf(c SdfCase) (bool, []string) {
 	labels := []string{fmt.Sprintf("prefix=%d", c.Prefix)}
+	if c.Mal != "" {
+		l := "malformed=" + c.Mal
+		if c.Mal == "non-string" && c.First == nil {
+			l += "(raw-marker)"
+		}
+		in, _ := c.build()
+		if len(in) == 0 {
+			labels = append(labels, "malformed=empty-input")
+		}
+		return true, append(labels, l)
+	}
+	if c.Tree != nil && (c.Tree.K == "obj" || c.Tree.K == "ecma") {
+		labels = append(labels, "parse-tree")
+	}
 	if c.Tree != nil {
 		labels = append(labels, "rest=container")
 	} else if c.Rest.size() > 0 {
@@ -1069,6 +1262,9 @@ var codecGen = rapid.OneOf(
 )
 
 func genMeta(t *rapid.T) MetaCase {
+	if rapid.IntRange(0, 15).Draw(t, "allAbsent") == 0 {
+		return MetaCase{Width: -1, Height: -1, Audio: -1, Video: -1, Sdf: rapid.Bool().Draw(t, "sdf")}
+	}
 	return MetaCase{
 		Width: dimGen.Draw(t, "width"), Height: dimGen.Draw(t, "height"),
 		Audio: codecGen.Draw(t, "audio"), Video: codecGen.Draw(t, "video"),
@@ -1094,8 +1290,19 @@ func runMeta(c MetaCase) *pbt.Violation {
 	if len(vals) != 2 || vals[0].Kind != rtmpref.KString || (vals[1].Kind != rtmpref.KObject && vals[1].Kind != rtmpref.KEcmaArray) {
 		return pbt.V("metadata/built-shape", "BuildMetadata output is %d values %v, want a name string and one object", len(vals), vals)
 	}
+	// documented on BuildMetadata: the FLV name "onMetaData"; "-1: the field is not
+	// written"; the fields width, height, audiocodecid, videocodecid, version
+	if vals[0].Str != "onMetaData" {
+		return pbt.V("metadata/built-name", "BuildMetadata output is named %s, want \"onMetaData\"", short(vals[0].Str))
+	}
+	if ver, ok := vals[1].GetString("version"); !ok || ver != base.LalRtmpBuildMetadataEncoder {
+		return pbt.V("metadata/built-version", "BuildMetadata(%d,%d,%d,%d): field version is %q (string present=%v), want %q", c.Width, c.Height, c.Audio, c.Video, ver, ok, base.LalRtmpBuildMetadataEncoder)
+	}
 	for _, f := range fields {
 		if f.val == -1 {
+			if got, present := vals[1].Get(f.key); present {
+				return pbt.V("metadata/built-absent-field-written", "BuildMetadata(%d,%d,%d,%d): %s was given as -1 (not to be written) but the output has %s = %s", c.Width, c.Height, c.Audio, c.Video, f.key, f.key, got)
+			}
 			continue
 		}
 		g, ok := vals[1].GetNumber(f.key)
@@ -1109,8 +1316,14 @@ func runMeta(c MetaCase) *pbt.Violation {
 		if err != nil {
 			return pbt.V("metadata/parse-error", "ParseMetadata(%s BuildMetadata(%d,%d,%d,%d)): %v", what, c.Width, c.Height, c.Audio, c.Video, err)
 		}
+		if ver, err := opa.FindString("version"); err != nil || ver != base.LalRtmpBuildMetadataEncoder {
+			return pbt.V("metadata/field", "ParseMetadata(%s BuildMetadata(%d,%d,%d,%d)): version reads back as %q, %v", what, c.Width, c.Height, c.Audio, c.Video, ver, err)
+		}
 		for _, f := range fields {
 			if f.val == -1 {
+				if got := opa.Find(f.key); got != nil {
+					return pbt.V("metadata/absent-field-read", "ParseMetadata(%s BuildMetadata(%d,%d,%d,%d)): %s was given as -1 but reads back as %v", what, c.Width, c.Height, c.Audio, c.Video, f.key, got)
+				}
 				continue
 			}
 			g, ok := opa.Find(f.key).(float64)
